@@ -219,6 +219,21 @@ theorem hashToG1_onCurve (m : Bytes) (q : Pt) (h : hashToG1 m = some q) :
     q.onCurve = true ∧ q.reduced = true :=
   hashToPoint_onCurve _ q h
 
+/-- The postcondition of the UNBOUNDED try-and-increment loop is an affine curve point: `H(m)` is never
+    the identity (the loop of the code has no bound and no `SetInfinity` exit — pinned by
+    `shape_hashToCurvePointLoop`, `shape_hashToPointCalls`). -/
+theorem hashToG1_ne_identity (m : Bytes) (q : Pt) (h : hashToG1 m = some q) : q ≠ .inf := by
+  unfold hashToG1 hashToPoint at h
+  generalize 512 = fuel at h
+  generalize beToNat (Sha.sha256 m) % P = x0 at h
+  induction fuel generalizing x0 with
+  | zero => simp [hashLoop] at h
+  | succ fuel ih =>
+    rw [hashLoop] at h
+    split at h
+    · intro hq; rw [hq] at h; cases h
+    · exact ih _ h
+
 /-- The digest is always 32 bytes (eight 32-bit words), so it is read as a 256-bit number. -/
 theorem sha256_length (m : Bytes) : (Sha.sha256 m).length = 32 := by
   unfold Sha.sha256
